@@ -2113,7 +2113,6 @@ func (c *c02ctx) r9LengthArith() {
 	}
 }
 
-
 // arrayLenOf: x is (a pointer to) a fixed-size array; its length, else 0.
 func arrayLenOf(x ssa.Value) int64 {
 	t := x.Type().Underlying()
